@@ -630,7 +630,81 @@ def _fold_str(e):
     return F().visit(e)
 
 
-def sym_cases(fn, target, limit=256):
+def fragment_completions(db):
+    """how ast.PythonFragment completes a control line before parsing it, per keyword, whatever the dispatch is written as
+    (if/elif chain, guard clauses, constant table): [(keywords, prefix text, suffix text, lineno_offset value or None, node)]"""
+    pf = db.func("ast.PythonFragment.__init__")
+    sup = [c for c in walk_func(pf) if isinstance(c, ast.Call) and dotted(c.func) == "super().__init__" and c.args]
+    if not sup:
+        raise AnalysisError("ast.PythonFragment.__init__: the call of PythonCode.__init__ was not found (anchor)")
+    codep = pn(pf, 1)
+    out = []
+    for conds, call in sym_cases(pf, sup[0], tables=module_tables(db, "ast", pf)):
+        kws = None
+        for t, v in conds:
+            t, v = _fold_not(t, v)
+            if v and isinstance(t, ast.Compare) and len(t.ops) == 1 and isinstance(t.left, ast.Name):
+                c = t.comparators[0]
+                if isinstance(t.ops[0], ast.Eq) and isinstance(c, ast.Constant) and isinstance(c.value, str):
+                    kws = [c.value]
+                elif isinstance(t.ops[0], ast.In) and isinstance(c, (ast.List, ast.Tuple, ast.Set)) and all(isinstance(const(e), str) for e in c.elts):
+                    kws = [const(e) for e in c.elts]
+        if kws is None:
+            continue
+        # the code argument: <prefix> + code + <suffix>
+        parts = []
+        def flat(e):
+            if isinstance(e, ast.BinOp) and isinstance(e.op, ast.Add):
+                flat(e.left)
+                flat(e.right)
+            else:
+                parts.append(e)
+        flat(call.args[0])
+        names = [i for i, p in enumerate(parts) if not (isinstance(p, ast.Constant) and isinstance(p.value, str))]
+        if len(names) != 1 or not any(isinstance(x, ast.Name) and x.id == codep for x in ast.walk(parts[names[0]])):
+            out.append((kws, None, None, None, call))
+            continue
+        prefix = "".join(p.value for p in parts[:names[0]])
+        suffix = "".join(p.value for p in parts[names[0] + 1:])
+        off = [k.value for k in call.keywords if k.arg == "lineno_offset"]
+        offv = const(off[0]) if off and isinstance(off[0], ast.Constant) else (-const(off[0].operand) if off and isinstance(off[0], ast.UnaryOp) and isinstance(off[0].op, ast.USub) and isinstance(off[0].operand, ast.Constant) else None)
+        out.append((kws, prefix, suffix, offv if off else "absent", call))
+    return out
+
+
+def module_tables(db, modname, fn=None):
+    """{name: Dict node} of the constant lookup tables a function may consult: module-level and (for a method) class-level
+    `NAME = {<constant keys>: ...}`"""
+    out = {}
+    scopes = [db.mod(modname).tree.body]
+    cls = getattr(fn, "_parent", None)
+    if isinstance(cls, ast.ClassDef):
+        scopes.append(cls.body)
+    for body in scopes:
+        for s in body:
+            if isinstance(s, ast.Assign) and len(s.targets) == 1 and isinstance(s.targets[0], ast.Name) and isinstance(s.value, ast.Dict) and s.value.keys and all(isinstance(k, ast.Constant) for k in s.value.keys):
+                out[s.targets[0].id] = s.value
+    return out
+
+
+def _const_truth(t):
+    """truth of a test that only involves displays / constants (after substitution), else None"""
+    if isinstance(t, ast.UnaryOp) and isinstance(t.op, ast.Not):
+        v = _const_truth(t.operand)
+        return None if v is None else not v
+    if isinstance(t, ast.Compare) and len(t.ops) == 1 and isinstance(t.ops[0], (ast.Is, ast.IsNot)) and isinstance(t.comparators[0], ast.Constant) and t.comparators[0].value is None:
+        if isinstance(t.left, (ast.Tuple, ast.List, ast.Dict, ast.Set)) or (isinstance(t.left, ast.Constant) and t.left.value is not None):
+            return isinstance(t.ops[0], ast.IsNot)
+        if isinstance(t.left, ast.Constant) and t.left.value is None:
+            return isinstance(t.ops[0], ast.Is)
+    if isinstance(t, ast.Constant):
+        return bool(t.value)
+    if isinstance(t, (ast.Tuple, ast.List)):
+        return bool(t.elts)
+    return None
+
+
+def sym_cases(fn, target, limit=256, tables=None):
     """symbolic evaluation of the straight-line / if structure of fn up to the statement that holds the expression `target`:
     [(conditions [(expression, truth)], value of target)] with every local written in terms of the function's inputs
     (assignments and += are substituted, conditional expressions assigned to a local are split into cases).
@@ -659,21 +733,42 @@ def sym_cases(fn, target, limit=256):
             return
         if isinstance(s, ast.If):
             t = sub(s.test, env)
-            go(list(s.body) + rest, conds + [(t, True)], env)
-            go(list(s.orelse) + rest, conds + [(t, False)], env)
+            d = _const_truth(t)
+            if d is not False:
+                go(list(s.body) + rest, conds + ([(t, True)] if d is None else []), env)
+            if d is not True:
+                go(list(s.orelse) + rest, conds + ([(t, False)] if d is None else []), env)
             return
         if isinstance(s, (ast.Return, ast.Raise, ast.Continue, ast.Break)):
             return
         if isinstance(s, ast.Assign) and len(s.targets) == 1 and isinstance(s.targets[0], ast.Name):
+            v0 = s.value
+            # a look-up in a constant table: one case per key, and the case that the key is not there
+            tb = None
+            if tables and isinstance(v0, ast.Call) and isinstance(v0.func, ast.Attribute) and v0.func.attr == "get" and isinstance(v0.func.value, ast.Name) and v0.func.value.id in tables and 1 <= len(v0.args) <= 2:
+                tb, key, dflt = tables[v0.func.value.id], v0.args[0], (v0.args[1] if len(v0.args) == 2 else ast.Constant(value=None))
+            elif tables and isinstance(v0, ast.Subscript) and isinstance(v0.value, ast.Name) and v0.value.id in tables:
+                tb, key, dflt = tables[v0.value.id], v0.slice, None
+            if tb is not None:
+                k_ = sub(key, env)
+                for kk, vv in zip(tb.keys, tb.values):
+                    test = ast.Compare(left=k_, ops=[ast.Eq()], comparators=[kk])
+                    go(rest, conds + [(test, True)], dict(env, **{s.targets[0].id: vv}))
+                if dflt is not None:
+                    test = ast.Compare(left=k_, ops=[ast.In()], comparators=[ast.Tuple(elts=list(tb.keys), ctx=ast.Load())])
+                    go(rest, conds + [(test, False)], dict(env, **{s.targets[0].id: sub(dflt, env)}))
+                return
             for c, leaf in split(sub(s.value, env)):
                 go(rest, conds + c, dict(env, **{s.targets[0].id: leaf}))
             return
-        if isinstance(s, ast.Assign) and len(s.targets) == 1 and isinstance(s.targets[0], ast.Tuple) and isinstance(s.value, ast.Tuple) and len(s.value.elts) == len(s.targets[0].elts) and all(isinstance(t_, ast.Name) for t_ in s.targets[0].elts):
-            new = dict(env)
-            for t_, v_ in zip(s.targets[0].elts, s.value.elts):
-                new[t_.id] = sub(v_, env)
-            go(rest, conds, new)
-            return
+        if isinstance(s, ast.Assign) and len(s.targets) == 1 and isinstance(s.targets[0], ast.Tuple) and all(isinstance(t_, ast.Name) for t_ in s.targets[0].elts):
+            val = sub(s.value, env)
+            if isinstance(val, ast.Tuple) and len(val.elts) == len(s.targets[0].elts):
+                new = dict(env)
+                for t_, v_ in zip(s.targets[0].elts, val.elts):
+                    new[t_.id] = v_
+                go(rest, conds, new)
+                return
         if isinstance(s, ast.AugAssign) and isinstance(s.target, ast.Name):
             cur = env.get(s.target.id, ast.Name(id=s.target.id, ctx=ast.Load()))
             val = _fold_str(ast.BinOp(left=_clone_expr(cur), op=s.op, right=sub(s.value, env)))
